@@ -1603,7 +1603,11 @@ def dq_abs(qc):
 
 
 def dq_bids(qc):
-    return [getattr(i.operation, "basis_id", None) if isinstance(i.operation, BaseQPDGate) else None for i in qc.data]
+    out = []
+    for i in qc.data:
+        b = getattr(i.operation, "basis_id", None) if isinstance(i.operation, BaseQPDGate) else None
+        out.append(None if b is None else int(b))          # (a numpy map id would not be JSON-serialisable)
+    return out
 
 
 @kind("decompose")
